@@ -243,29 +243,61 @@ func scaleDNSAnswer(e *urlfilter.DNSEngine, host string) string {
 func genScale(r *rng, n int, w *bufio.Writer) {
 	fSilenceLogs()
 	// --- scale.dup ---------------------------------------------------------------------------------------------
-	nRules := 4300 + r.n(300)
-	var sb strings.Builder
-	for i := 0; i < nRules; i++ {
-		fmt.Fprintf(&sb, "||h%05d.example^\n", i)
+	// The history retrieves MORE distinct rules than any power-of-two bound up to 2^16 (sometimes 2^17) a cache of
+	// deserialised rules could have; the probed rules are never asked about (never retrieved) before the probe.
+	nRules := 66000 + r.n(4000)
+	if r.chance(1, 4) {
+		nRules = 131072 + 500 + r.n(3000)
 	}
+	var sb strings.Builder
 	key := pick(r, []string{"abcde", "qwert", "zzyyx"})
-	sb.WriteString("||" + key + ".org^\n||" + key + ".org^$dnsrewrite=1.2.3.4\n")
+	probeRules := []string{"||" + key + ".org^", "||" + key + ".org^$dnsrewrite=1.2.3.4", "||" + key + "." + key + ".org^$important",
+		"||" + key + ".org^$cookie=c" + key, "@@||" + key + ".org^$csp=script-src 'none'"}
+	at := r.n(3) // the probed rules stand at the start, in the middle or at the end of the list
+	for i := 0; i < nRules; i++ {
+		if (at == 0 && i == 0) || (at == 1 && i == nRules/2) {
+			sb.WriteString(strings.Join(probeRules, "\n") + "\n")
+		}
+		fmt.Fprintf(&sb, "||h%06d.example^\n", i)
+	}
+	if at == 2 {
+		sb.WriteString(strings.Join(probeRules, "\n") + "\n")
+	}
 	content := sb.String()
-	mk := func() *urlfilter.DNSEngine {
+	type scaleEngines struct {
+		d *urlfilter.DNSEngine
+		n *urlfilter.NetworkEngine
+		s *filterlist.RuleStorage
+	}
+	mk := func() scaleEngines {
 		s, err := filterlist.NewRuleStorage([]filterlist.RuleList{&filterlist.StringRuleList{ID: 1, RulesText: content}})
 		if err != nil {
 			panic(err)
 		}
 
-		return urlfilter.NewDNSEngine(s)
+		return scaleEngines{d: urlfilter.NewDNSEngine(s), n: urlfilter.NewNetworkEngine(s), s: s}
 	}
 	e := mk()
 	for i := 0; i < nRules; i++ {
-		_, _ = e.Match(fmt.Sprintf("h%05d.example", i))
+		_, _ = e.d.Match(fmt.Sprintf("h%06d.example", i))
 	}
+	retrieved := e.s.GetCacheSize()
+	fresh := mk()
 	target := key + "." + key + ".org" // the 5-byte index key occurs twice in the hostname
-	got, want := scaleDNSAnswer(e, target), scaleDNSAnswer(mk(), target)
-	fmt.Fprintf(w, "assert scale.dup %d = %s ## after %d distinct rules were retrieved, query %q: %s ; fresh engine: %s\n", nRules, wbool(got == want), nRules, target, noteStr(got), noteStr(want))
+	webProbe := func(g scaleEngines) string {
+		return guardStr(func() string {
+			q := rules.NewRequest("https://"+target+"/"+key+"/x.js?"+key, "https://"+key+".org/", rules.TypeScript)
+
+			return fNetKeys(g.n.MatchAll(q))
+		})
+	}
+	got, want := scaleDNSAnswer(e.d, target), scaleDNSAnswer(fresh.d, target)
+	gotW, wantW := webProbe(e), webProbe(fresh)
+	// asked again (the rules have been retrieved once by now)
+	got2, gotW2 := scaleDNSAnswer(e.d, target), webProbe(e)
+	ok := got == want && gotW == wantW && got2 == want && gotW2 == wantW
+	fmt.Fprintf(w, "assert scale.dup %d = %s ## after %d distinct rules were retrieved (cache size %d), DNS query %q: %s (again: %s); fresh engine: %s; web request https://%s/%s/x.js?%s MatchAll: %s (again: %s); fresh engine: %s\n",
+		nRules, wbool(ok), nRules, retrieved, target, noteStr(got), noteStr(got2), noteStr(want), target, key, key, noteStr(gotW), noteStr(gotW2), noteStr(wantW))
 
 	// --- scale.fault -------------------------------------------------------------------------------------------
 	nHosts := 17000 + r.n(2000)
